@@ -434,7 +434,9 @@ func (vc *VC) bindResults(v *ssa.Call, sig *types.Signature, names []string) []T
 // defaultEffect: a callee without contract.
 func (vc *VC) defaultEffect(c *ssa.CallCommon, key, calleePkg string, fn *ssa.Function) {
 	if key == "" {
-		vc.trusted["dynamic call: heap effect of function value ignored"] = true
+		// a call through a function value whose target is not known: it may do anything to the heap
+		vc.trusted["dynamic call through an unknown function value: whole heap havocked, results unconstrained"] = true
+		vc.havocAll()
 		return
 	}
 	if strings.HasPrefix(calleePkg, repoModule) {
@@ -450,6 +452,17 @@ func (vc *VC) defaultEffect(c *ssa.CallCommon, key, calleePkg string, fn *ssa.Fu
 		av := a
 		if mi, ok := a.(*ssa.MakeInterface); ok {
 			av = mi.X
+		}
+		if sl, isSl := av.Type().Underlying().(*types.Slice); isSl && !isByteSlice(av.Type()) {
+			// an external callee may write through a slice argument (sort.Strings, sort.Sort(sort.StringSlice(s)), copy-like helpers)
+			if t := vc.val(av); t.Sort == "Slice" {
+				ck := elemComp(sl.Elem())
+				es := "(Array Int (Array Int " + vc.sortOf(sl.Elem()) + "))"
+				name := vc.fresh("extarr")
+				vc.declConst(name, "(Array Int "+vc.sortOf(sl.Elem())+")")
+				vc.setComp(ck, es, fmt.Sprintf("(store %s (s_arr %s) %s)", vc.getComp(ck, es), t.S, name))
+			}
+			continue
 		}
 		pt, ok := av.Type().Underlying().(*types.Pointer)
 		if !ok {
